@@ -133,6 +133,35 @@ def c07(run, vc):
                       assumptions=["symbolic model: generic group + random oracle (DESIGN.md 2.2)"])
 
 
+# ------------------------------------------------------------------------------------ C08
+def _nontrivial_threshold(v):
+    if v["act"] == "Combine":
+        return not (v.get("ideal") and len(v["entries"]) == v["t"])
+    return v.get("expect", {}).get("res") != "Ok" or v.get("i") != v.get("j")
+
+
+def c08(run, vc):
+    tier = run.tier
+    tables = _prep(run, vc)
+    cfg = "MC_Threshold_%s.cfg" % tier
+    r, bad = _tlc_stage(run, vc, "MC_Threshold", cfg, [("Split", "Ok"), ("Split", "Err"), ("Combine", "Ok"), ("Combine", "Err"),
+                                                         ("PartialSign", "Err"), ("PartialVerify", "Ok"), ("PartialVerify", "Err")], timeout=7200)
+    if bad:
+        return run.finish()
+    vecs = r["vectors"]
+    whole = sum(1 for v in vecs if v["act"] == "Combine" and v["expect"].get("whole"))
+    other = sum(1 for v in vecs if v["act"] == "Combine" and v["expect"]["res"] == "Ok" and not v["expect"].get("whole"))
+    if not whole or not other:
+        raise vc.ToolError("vacuity: Combine never whole / never other")
+    run.extra_cov["combine_whole"] = whole
+    run.extra_cov["combine_ok_but_not_whole"] = other
+    _sample(run, [v for v in vecs if v["act"] == "Combine"])
+    s = vc.replay(vecs, "c08", tables, profiles="5")
+    run.add_replay(s, "split / combine (key, public key, signature) / partial sign / partial verify on real shares", vecs, _nontrivial_threshold)
+    return run.finish(rule="vectors = every transition of the Threshold model: all (t,n) with 2<=t<=n<=MaxN plus out-of-range parameters; for each deal every sequence without repetition of every length handed to each of the three combiners, plus one adversarial insertion (duplicate, zero id, rewritten id, corrupt payload, other scheme) at every position of every base sequence of length <= BaseLen; all (i,j) partial verifications; non-trivial = anything but exactly t untouched shares",
+                      assumptions=["symbolic model: polynomial coefficients are atoms; Lagrange over exact rationals", "reference interpolation on bls12_381_plus"])
+
+
 # ------------------------------------------------------------------------------------ traces
 def _trace_signet(run, vc, tables, name, events, mix="all"):
     """implementation -> spec: record a random walk of the real library, validate with TLC."""
@@ -141,4 +170,4 @@ def _trace_signet(run, vc, tables, name, events, mix="all"):
     vc.record_and_validate(run, "signet", "Trace_SigNet", name, events, tables, mix=mix)
 
 
-CHECKS = {"C01": c01, "C02": c02, "C06": c06, "C07": c07, "C09": c09}
+CHECKS = {"C01": c01, "C02": c02, "C06": c06, "C07": c07, "C08": c08, "C09": c09}
